@@ -29,6 +29,28 @@ Theorem wrap_shares_memory :
 Proof. exact @element_shares. Qed.
 Print Assumptions wrap_shares_memory.
 
+(* The layout precondition, explicit: with order=None a writeable array of
+   matching dtype and shape is shared whatever its memory layout (C, Fortran,
+   transposed, strided, negative strides); ... *)
+Theorem wrap_shares_memory_any_layout :
+  forall (T : Type) (cast : dt -> dt -> T -> T) (st : @store T) (sp : tspace) (id : nat) (l : layout),
+  shape_eqb (a_shape (rd st id)) (ts_shape sp) = true ->
+  dt_eqb (a_dt (rd st id)) (ts_dt sp) = true ->
+  t_element_lay cast st sp id true l None = Ok (OpTens sp id, st).
+Proof. exact @element_shares_any_layout. Qed.
+(* ... in every other case (dtype differs, read-only array, or an explicit
+   order= the array does not already have) the element lives in a fresh
+   converted copy and no existing buffer is touched. *)
+Theorem wrap_copies_otherwise :
+  forall (T : Type) (cast : dt -> dt -> T -> T) (st : @store T) (sp : tspace) (id : nat)
+         (w : bool) (l : layout) (o : option order),
+  shape_eqb (a_shape (rd st id)) (ts_shape sp) = true ->
+  dt_eqb (a_dt (rd st id)) (ts_dt sp) && w && layout_ok o l = false ->
+  t_element_lay cast st sp id w l o
+  = Ok (OpTens sp (length st), st ++ [cast_arr cast (ts_dt sp) (rd st id)]).
+Proof. exact @element_copies_otherwise. Qed.
+Print Assumptions wrap_shares_memory_any_layout.
+
 (* np.<ufunc>(x, ...) without out, NumpyTensor operands mixed with arrays and
    scalars in any order (1 or 2 outputs).  SOUND: whenever ODL returns, NumPy on
    the underlying arrays returns too, leaves the identical store (same numbers,
